@@ -167,7 +167,7 @@ def check(spec, rng):
 
 
 OPS = ['k1 * A * B', 'k2 * Cc', 'k1 * A^2 / (k2 + A)', 'k1 * exp(-k2 * B)', 'k2 * (A + B) - k1 * Cc + 3', 'k1 * abs(A - B)', 'k1 * A^k2', 'k * A', 'k * B + k1']
-RULEF = ['A + B', 'k1 * A - Cc', 'k2', '2 * A', 'A * B / (1 + Cc)']
+RULEF = ['A + B', 'k1 * A - Cc', 'k2', '2 * A', 'A * B / (1 + Cc)', '-k1 * B + k2', '-(k2 * A)', '-B + 2 * A - k1']      # incl. formulas that begin with a unary minus
 
 
 def random_doc(rng):
